@@ -74,7 +74,7 @@ func (s *BarGraph) WriteBar(idx int, key string, vals ...int64) {
 
 	s.rows[idx] = barGraphPair{
 		name: key,
-		vals: vals,
+		vals: append([]int64(nil), vals...), // copy: the caller keeps updating its slice
 	}
 
 	// Compute the updated max
